@@ -61,6 +61,21 @@ Theorem C07_rules_are_what_is_validated :
 Proof. exact valid_chain_rules. Qed.
 Print Assumptions C07_rules_are_what_is_validated.
 
+(* "meets ITS proof-of-work target": an accepted header meets the target its own bits encode (as lbrycrd's
+   SetCompact(nBits) check does), i.e. the demanded retarget value with its low bits cleared, hence also the exact
+   retarget value *)
+Theorem C07_accepted_meets_bits_target :
+  forall (sha256 sha512 rmd160 : bytes -> bytes) (c : cfg) (pp : option bytes) (pr x : bytes),
+  validate_difficulty c = true ->
+  header_rules sha256 sha512 rmd160 c pp (Some pr) x ->
+  let t := next_target (max_target c) pp (Some pr) in
+  h_bits x = compact t /\
+  (pow_value sha256 sha512 rmd160 x <= from_compact (h_bits x))%N /\
+  from_compact (h_bits x) = N.shiftl (N.shiftr t (cshift t)) (cshift t) /\
+  (pow_value sha256 sha512 rmd160 x <= t)%N.
+Proof. exact accepted_meets_bits_target. Qed.
+Print Assumptions C07_accepted_meets_bits_target.
+
 (* ---- the chain invariant ---- *)
 (* For every sequence of connect calls (any start heights, any byte strings as batches), started from a
    stored chain that obeys the rules (e.g. the empty one): the whole stored chain -- which by
@@ -169,9 +184,9 @@ Print Assumptions C07_chain_invariant_with_lookups.
    flagged missing or what is stored for it hashes to the built-in checkpoint; and a height in a chunk flagged
    missing is never reported as present (so a lookup fetches, and C07_lookup_checkpoint_only applies) *)
 Theorem C07_open_missing_exact :
-  forall (sha256 : bytes -> bytes) (c : cfg) (file : bytes) (h : nat) (e : bytes),
+  forall (sha256 sha512 rmd160 : bytes -> bytes) (c : cfg) (file : bytes) (h : nat) (e : bytes),
   In (h, e) (checkpoints c) ->
-  let s := hopen sha256 c file in
+  let s := hopen sha256 sha512 rmd160 c file in
   In h (missing s) \/ dsha sha256 (read_n (io s) h CHUNK) = e.
 Proof. exact open_missing_exact. Qed.
 Print Assumptions C07_open_missing_exact.
@@ -183,22 +198,23 @@ Theorem C07_missing_not_served :
 Proof. exact missing_not_served. Qed.
 Print Assumptions C07_missing_not_served.
 
-(* ---- restart ---- *)
 (* open() on ANY file content: what is loaded is a byte prefix of the file (the whole file, or a whole
    number of headers), its headers are the first [hsize] headers of the file, they link by prev hash from
-   the height where the check starts ([open_start]: 0 for a misaligned file, else max(checkpoints)+1000),
-   and when the check starts at 0 the first header is the genesis block *)
+   the height where the check starts ([open_start]: 0 for a misaligned file or a store without checkpoints, else
+   max(checkpoints)+1000), when the check starts at 0 the first header is the genesis block, and if nothing was
+   dropped the tip itself obeys link, bits and proof of work relative to the two headers below it ([tip_ok]) *)
 Theorem C07_open_yields_linked_prefix :
-  forall (sha256 : bytes -> bytes) (c : cfg) (file : bytes),
-  let s := load_repair sha256 c file in
+  forall (sha256 sha512 rmd160 : bytes -> bytes) (c : cfg) (file : bytes),
+  let s := load_repair sha256 sha512 rmd160 c file in
   let H := chunks (length file / HS) file in
+  let start := open_start c file in
   io s = firstn (length (io s)) file /\
   (io s = file \/ length (io s) = HS * hsize s) /\
   tight s /\ hsize s <= length file / HS /\ missing s = [] /\
   stored_chain s = firstn (hsize s) H /\
-  linked sha256 (skipn (open_start c file) (stored_chain s)) /\
-  (open_start c file = 0 -> forall x, nth_error (stored_chain s) 0 = Some x ->
-                            repair_genesis_ok sha256 c x = true).
+  linked sha256 (skipn start (stored_chain s)) /\
+  (start = 0 -> forall x, nth_error (stored_chain s) 0 = Some x -> repair_genesis_ok sha256 c x = true) /\
+  (hsize s = length file / HS -> Nat.max start 1 < hsize s -> tip_ok sha256 sha512 rmd160 c (stored_chain s)).
 Proof. exact open_linked_prefix. Qed.
 Print Assumptions C07_open_yields_linked_prefix.
 
@@ -210,15 +226,19 @@ Theorem C07_linked_means :
 Proof. exact linked_iff. Qed.
 Print Assumptions C07_linked_means.
 
-(* how much is dropped, for ANY damage: either everything is kept, or the chain is cut at k-1 where k is
-   the FIRST height above the start of the check whose link to its predecessor is broken (k = 0: genesis
-   test failed) -- i.e. from one before the first header found damaged *)
+(* how much is dropped, for ANY file: either everything is kept (and then the tip obeys the rules), or all links
+   hold and exactly the tip is dropped because it breaks a rule, or the chain is cut at k-1 where k is the FIRST
+   height above the start of the check whose link to its predecessor is broken (k = 0: genesis test failed) -- i.e.
+   from one before the first header found damaged *)
 Theorem C07_open_after_damage :
-  forall (sha256 : bytes -> bytes) (c : cfg) (file : bytes),
-  let s := load_repair sha256 c file in
+  forall (sha256 sha512 rmd160 : bytes -> bytes) (c : cfg) (file : bytes),
+  let s := load_repair sha256 sha512 rmd160 c file in
   let H := chunks (length file / HS) file in
+  let n := length file / HS in
   let start := open_start c file in
-  (io s = file /\ hsize s = length file / HS)
+  (io s = file /\ hsize s = n /\ (Nat.max start 1 < n -> tip_ok sha256 sha512 rmd160 c H))
+  \/ (Nat.max start 1 < n /\ ~ tip_ok sha256 sha512 rmd160 c H /\ linked sha256 (skipn start H) /\
+      hsize s = n - 1 /\ io s = firstn (HS * (n - 1)) file)
   \/ (exists k, k < length H /\ hsize s = k - 1 /\ io s = firstn (HS * (k - 1)) file /\
         linked sha256 (skipn start (firstn k H)) /\
         ((k = 0 /\ start = 0 /\ exists x, nth_error H 0 = Some x /\ repair_genesis_ok sha256 c x = false)
@@ -231,24 +251,38 @@ Print Assumptions C07_open_after_damage.
    shows in a prev-hash link -- the loaded chain is the undamaged prefix cut one before the damaged header
    or exactly at it *)
 Theorem C07_open_after_single_damage :
-  forall (sha256 : bytes -> bytes) (c : cfg) (hs : list bytes) (d : nat) (x' : bytes),
+  forall (sha256 sha512 rmd160 : bytes -> bytes) (c : cfg) (hs : list bytes) (d : nat) (x' : bytes),
   Forall (fun x : bytes => length x = HS) hs -> linked sha256 hs -> length x' = HS ->
+  (forall x, nth_error hs 0 = Some x -> repair_genesis_ok sha256 c x = true) ->
   repair_start c < d -> d < length hs ->
   ((forall p, nth_error hs (d - 1) = Some p -> h_prev x' <> dsha sha256 p)
    \/ (exists y, nth_error hs (S d) = Some y /\ h_prev y <> dsha sha256 x')) ->
-  let s := load_repair sha256 c (concat (replace_nth d x' hs)) in
+  let s := load_repair sha256 sha512 rmd160 c (concat (replace_nth d x' hs)) in
   (hsize s = d - 1 \/ hsize s = d) /\ io s = firstn (HS * hsize s) (concat hs).
 Proof. exact open_after_single_damage. Qed.
 Print Assumptions C07_open_after_single_damage.
 
-(* a linked stored chain cut at ANY byte offset m: exactly the m/112 whole headers are loaded -- only
-   the partial header is lost *)
+(* the LAST header overwritten with its prev field intact (no successor can expose it through a link) so that it
+   breaks a rule (bits or proof of work): exactly the tip is dropped, everything below it is loaded *)
+Theorem C07_open_after_tip_damage :
+  forall (sha256 sha512 rmd160 : bytes -> bytes) (c : cfg) (hs : list bytes) (x' g : bytes) (n : nat),
+  genesis c = Some g ->
+  Forall (fun x : bytes => length x = HS) hs -> chain_rules sha256 sha512 rmd160 c hs -> length x' = HS ->
+  length hs = S n -> Nat.max (repair_start c) 1 <= n ->
+  (forall p, nth_error hs (n - 1) = Some p -> h_prev x' = dsha sha256 p) ->
+  check_header sha256 sha512 rmd160 c (prev2 hs n) (prev1 hs n) x' <> None ->
+  load_repair sha256 sha512 rmd160 c (concat (firstn n hs ++ [x'])) = mkSt (concat (firstn n hs)) n [].
+Proof. exact open_after_tip_damage. Qed.
+Print Assumptions C07_open_after_tip_damage.
+
+(* a stored chain that obeys the rules, cut at ANY byte offset m: exactly the m/112 whole headers are loaded --
+   only the partial header is lost *)
 Theorem C07_open_after_cut :
-  forall (sha256 : bytes -> bytes) (c : cfg) (hs : list bytes) (m : nat),
-  Forall (fun x : bytes => length x = HS) hs -> linked sha256 hs ->
-  (forall x, nth_error hs 0 = Some x -> repair_genesis_ok sha256 c x = true) ->
+  forall (sha256 sha512 rmd160 : bytes -> bytes) (c : cfg) (hs : list bytes) (m : nat) (g : bytes),
+  genesis c = Some g ->
+  Forall (fun x : bytes => length x = HS) hs -> chain_rules sha256 sha512 rmd160 c hs ->
   m <= length (concat hs) ->
-  load_repair sha256 c (firstn m (concat hs)) = mkSt (firstn m (concat hs)) (m / HS) [].
+  load_repair sha256 sha512 rmd160 c (firstn m (concat hs)) = mkSt (firstn m (concat hs)) (m / HS) [].
 Proof. exact open_after_cut. Qed.
 Print Assumptions C07_open_after_cut.
 
@@ -259,21 +293,21 @@ Theorem C07_restart_after_cut_keeps_rules :
   genesis c = Some g ->
   Forall (fun x : bytes => length x = HS) hs -> chain_rules sha256 sha512 rmd160 c hs ->
   m <= length (concat hs) ->
-  let s := load_repair sha256 c (firstn m (concat hs)) in
+  let s := load_repair sha256 sha512 rmd160 c (firstn m (concat hs)) in
   hsize s = m / HS /\ io s = firstn m (concat hs) /\
   stored_chain s = firstn (m / HS) hs /\ chain_rules sha256 sha512 rmd160 c (stored_chain s).
 Proof. exact restart_after_cut_keeps_rules. Qed.
 Print Assumptions C07_restart_after_cut_keeps_rules.
 
 (* close() writes exactly the chain in memory, and a restart WITHOUT any crash loads exactly what was stored
-   (same bytes, same length) whenever that chain links and starts with the genesis block -- in particular after
-   a reorganisation to a shorter chain nothing of the abandoned tail comes back *)
+   (same bytes, same length) whenever that chain obeys the rules -- in particular after a reorganisation to a
+   shorter chain nothing of the abandoned tail comes back *)
 Theorem C07_close_reopen_exact :
-  forall (sha256 : bytes -> bytes) (c : cfg) (s : st) (f : option bytes) (hs : list bytes),
-  io s = concat hs -> Forall (fun x : bytes => length x = HS) hs -> linked sha256 hs ->
-  (forall x, nth_error hs 0 = Some x -> repair_genesis_ok sha256 c x = true) ->
+  forall (sha256 sha512 rmd160 : bytes -> bytes) (c : cfg) (s : st) (f : option bytes) (hs : list bytes) (g : bytes),
+  genesis c = Some g ->
+  io s = concat hs -> Forall (fun x : bytes => length x = HS) hs -> chain_rules sha256 sha512 rmd160 c hs ->
   hclose s f = io s /\
-  load_repair sha256 c (hclose s f) = mkSt (io s) (length hs) [].
+  load_repair sha256 sha512 rmd160 c (hclose s f) = mkSt (io s) (length hs) [].
 Proof. exact close_reopen_exact. Qed.
 Print Assumptions C07_close_reopen_exact.
 
@@ -292,7 +326,7 @@ Theorem C07_repair_old_refuted :
   let s := mkSt w_file 37 [] in
   repair_fail toy w_rcfg 0 (chunks 37 w_file) = Some 36 /\
   hsize (repair_old toy w_rcfg s 0) = 37 /\
-  hsize (repair toy w_rcfg s 0) = 35.
+  hsize (repair toy toy toy w_rcfg s 0) = 35.
 Proof. exact repair_old_refuted. Qed.
 Print Assumptions C07_repair_old_refuted.
 
@@ -319,13 +353,13 @@ Example C07_ex_retarget :
 Proof. vm_compute. reflexivity. Qed.
 
 (* before the close() fix: 3 headers on disk, 2 in memory after a shorter fork; the 'r+b' overwrite kept the third,
-   the next open() loaded 3 headers with a broken link; the repaired close reloads the 2 that were stored *)
+   the next open() met the broken link and kept 1 header (a validly stored one lost); the repaired close reloads 2 *)
 Theorem C07_close_old_refuted :
   let old_file := wA0 ++ wA1 ++ wA2 in
   let s := mkSt (wA0 ++ wB1) 2 [] in
-  let reloaded := load_repair toy w_cfg (hclose_old s (Some old_file)) in
-  (hsize reloaded, validate toy toy toy w_cfg None None (chunks 3 (io reloaded)),
-   hsize (load_repair toy w_cfg (hclose s (Some old_file))))
-  = (3, Some RPrev, 2).
+  (length (hclose_old s (Some old_file)) / HS,
+   hsize (load_repair toy toy toy w_rcfg (hclose_old s (Some old_file))),
+   hsize (load_repair toy toy toy w_rcfg (hclose s (Some old_file))))
+  = (3, 1, 2).
 Proof. exact close_old_refuted. Qed.
 Print Assumptions C07_close_old_refuted.
